@@ -1,5 +1,6 @@
 (* C07 - cleanup.  Statements only: soundness of the executable oracles applied to the implementation's snapshots. *)
-Require Import FL.Base.Bytes FL.Base.BytesFacts FL.Flw.Model FL.Oracles.ReaderOrder FL.Oracles.O_Stream FL.Properties.C06.
+Require Import FL.Base.Bytes FL.Base.BytesFacts FL.Base.PathName FL.Fs.Fs FL.Names.FileSpec FL.Names.SortFacts FL.Fs.FsFacts FL.Flw.Model FL.Flw.ModelFacts FL.Flw.NumFs FL.Flw.CleanupFacts FL.Oracles.ReaderOrder FL.Oracles.O_Stream FL.Properties.C06.
+From Coq Require Import Permutation Sorted.
 Open Scope nat_scope.
 
 (* what survives, read oldest to newest (archives decompressed) and followed by the current file, is a contiguous
@@ -19,6 +20,81 @@ Proof.
   apply Nat.leb_le in H1. apply Nat.leb_le in H2. apply Nat.eqb_eq in H3. auto.
 Qed.
 
-Check C07_tail_sound. Check C07_limits_sound.
+(* the order of the listing that the cleanup works on (newest first): it is a sorted permutation of the family's
+   files under a total order of the names ... *)
+Theorem C07_listing_sorted : forall sfx l,
+  Permutation (sort_by_key sfx l) l /\ StronglySorted (fun x y => key_le sfx x y = true) (sort_by_key sfx l).
+Proof. intros sfx l. split; [apply sort_by_key_perm | apply sort_by_key_strongly_sorted]. Qed.
+
+(* ... in which, whatever the suffix (trc, txt, none) and however many digits the restart counter has (9999, 10000),
+   a file written later under the same time stamp is listed before (= newer than) the earlier ones, compressed or not *)
+Theorem C07_listing_restart_order : forall f sp sfx fixed i j k1 k2 (g1 g2 : bool),
+  fsfx sp = sfx -> j <> [] ->
+  contains restart_tag (under fixed ++ i) = false ->
+  strip_suffix (dot :: gz_sfx) (as_name sp fixed (Some j)) = None ->
+  (k1 < k2)%N ->
+  let n1 := add_gz g1 (as_name sp fixed (Some (restart_infix i k1))) in
+  let n2 := add_gz g2 (as_name sp fixed (Some (restart_infix i k2))) in
+  In n1 (related_files f sfx fixed) -> In n2 (related_files f sfx fixed) ->
+  exists l1 l2 l3, related_files f sfx fixed = l1 ++ n2 :: l2 ++ n1 :: l3.
+Proof. exact related_files_restart_order. Qed.
+
+Theorem C07_listing_plain_last : forall sp sfx fixed i k (g0 g1 : bool) l,
+  fsfx sp = sfx -> i <> [] ->
+  contains restart_tag (under fixed ++ i) = false ->
+  strip_suffix (dot :: gz_sfx) (as_name sp fixed (Some i)) = None ->
+  let n0 := add_gz g0 (as_name sp fixed (Some i)) in
+  let n1 := add_gz g1 (as_name sp fixed (Some (restart_infix i k))) in
+  In n0 l -> In n1 l ->
+  exists l1 l2 l3, rev (sort_by_key sfx l) = l1 ++ n1 :: l2 ++ n0 :: l3.
+Proof. exact listing_plain_last. Qed.
+
+
+(* compression is lossless: the archive holds exactly the content of the file it replaces, the original is gone,
+   every other file is untouched *)
+Theorem C07_compress_lossless w n i :
+  quiet w -> fs_wf (wfs w) -> lookup (wfs w) n = Some i -> not_dir (wfs w) (gz_name n) ->
+  exists w' j,
+    compress_file w n = (true, w') /\ same_env w w' /\ fs_wf (wfs w')
+    /\ lookup (wfs w') n = None
+    /\ lookup (wfs w') (gz_name n) = Some j
+    /\ inode (wfs w') j = {| fdata := content (wfs w) i; fgz := 1%N;
+                             fborn := match file_of (wfs w) (gz_name n) with Some fl => fborn fl | None => wnow w end;
+                             fdir := false |}
+    /\ (forall k, lookup (wfs w) (gz_name n) = Some k -> j = k)
+    /\ (lookup (wfs w) (gz_name n) = None -> j = length (inodes (wfs w)))
+    /\ (forall m, m <> n -> m <> gz_name n -> same_at (wfs w) (wfs w') m)
+    /\ (forall k, k < length (inodes (wfs w)) -> k <> j -> inode (wfs w') k = inode (wfs w) k).
+Proof. exact (compress_file_quiet w n i). Qed.
+
+(* the cleanup proper (redundant archives first, then the loop over the newest-first listing), without faults: the first
+   ll entries stay as they are, the next total - ll are archives afterwards (an archive stays, a plain file is replaced by
+   its archive with the same content), everything beyond is removed, nothing else changes *)
+Theorem C07_cleanup_keeps_newest w files ll total :
+  quiet w -> fs_wf (wfs w) -> NoDup files -> ~ In [] files -> ll <= total ->
+  (forall n, In n files -> lookup (wfs w) n <> None) ->
+  (forall n, In n files -> not_dir (wfs w) (gz_name n)) ->
+  let red := redundant_gz files in
+  let files' := without red files in
+  exists w1 w', remove_redundant w red files = (true, w1, files')
+    /\ cleanup_loop w1 files' 0 ll total = (true, w') /\ same_env w w' /\ fs_wf (wfs w')
+    (* a redundant archive is gone - unless its original is compressed now, which creates it anew (see the zone) *)
+    /\ (forall n, In n red -> ~ In n (map gz_name (filter not_gz (zone_part ll total files'))) -> lookup (wfs w') n = None)
+    /\ (forall n, In n (keep_part ll files') -> same_at (wfs w) (wfs w') n)
+    /\ (forall n, In n (zone_part ll total files') ->
+          if ext_is n gz_sfx then same_at (wfs w) (wfs w') n else archived (wfs w) (wfs w') n)
+    /\ (forall n, In n (gone_part total files') -> lookup (wfs w') n = None)
+    /\ length (keep_part ll files') <= ll /\ length (zone_part ll total files') <= total - ll
+    /\ (forall m, ~ In m files -> ~ In m (map gz_name (filter not_gz (zone_part ll total files'))) ->
+          same_at (wfs w) (wfs w') m).
+Proof. exact (cleanup_after_listing w files ll total). Qed.
+
+Check C07_compress_lossless. Check C07_cleanup_keeps_newest.
+Print Assumptions C07_compress_lossless.
+Print Assumptions C07_cleanup_keeps_newest.
+Check C07_tail_sound. Check C07_limits_sound. Check C07_listing_sorted. Check C07_listing_restart_order. Check C07_listing_plain_last.
+Print Assumptions C07_listing_sorted.
+Print Assumptions C07_listing_restart_order.
+Print Assumptions C07_listing_plain_last.
 Print Assumptions C07_tail_sound.
 Print Assumptions C07_limits_sound.
